@@ -7,7 +7,8 @@ CONSTANTS MaxCalls,
                     \*   exhaustively -- chains that share physical lines with interleaved operator names
 VARIABLES lay, done
 vars == <<lay, done>>
-Init == /\ lay = [calls |-> <<>>, wrap |-> "fn", extra |-> "none", pre |-> FALSE, kind |-> "lambda"]
+Init == /\ lay = [calls |-> <<>>, wrap |-> "fn", extra |-> "none", pre |-> FALSE, kind |-> "lambda",
+                  split |-> 0, recv |-> "ds"]
         /\ done = FALSE
 AddCall == /\ ~done /\ Len(lay.calls) < MaxCalls
            /\ \E op \in Ops, p \in Params, b \in (IF Mode = "line" THEN {"none", "dot"} ELSE Breaks),
@@ -18,8 +19,12 @@ Finish == /\ ~done /\ Len(lay.calls) >= 1
           /\ \E w \in (IF Mode = "line" THEN {"fn", "cond"} ELSE Wraps),
                 ex \in (IF Mode = "line" THEN {"none"} ELSE Extras),
                 pr \in (IF Mode = "line" THEN {FALSE} ELSE BOOLEAN),
-                kd \in (IF Mode = "line" THEN {"lambda"} ELSE {"lambda", "def", "var", "wrapped"}) :
-                lay' = [lay EXCEPT !.wrap = w, !.extra = ex, !.pre = pr, !.kind = kd]
+                kd \in (IF Mode = "line" THEN {"lambda"} ELSE {"lambda", "def", "var", "wrapped"}),
+                \* split = k > 0: calls 1..k and k+1.. are two separate chains in one statement, second(a.Op(..), b.Op(..));
+                \* recv = "short": the receivers are one-letter variables (a, b)
+                sp \in (IF Len(lay.calls) >= 2 THEN {0, 1} ELSE {0}), rc \in {"ds", "short"} :
+                /\ (sp > 0 => ex = "none")
+                /\ lay' = [lay EXCEPT !.wrap = w, !.extra = ex, !.pre = pr, !.kind = kd, !.split = sp, !.recv = rc]
           /\ done' = TRUE
 Next == AddCall \/ Finish
 Spec == Init /\ [][Next]_vars
